@@ -1,3 +1,4 @@
-import Hostd.Proto
-/-- stub driver for the `txn` engine; replaced when the engine is built -/
-def main : IO Unit := IO.println "STATS lines=0 flagged=0"
+import Hostd.Drive.Txn
+open Hostd
+def main : IO Unit := do
+  Proto.loop (← IO.getStdin) ({} : Drive.Txn.DState) Drive.Txn.step Drive.Txn.stats
